@@ -238,7 +238,7 @@ LINTERS = {
                           sweeps={"max_small_integer": [5, 30], "allowed_numbers": [[0, 1], [0, 1, 7], [0, 1, 7, 42], [0, 1, 7, 42, 4242]]}, cli={}, langs=["python"],
                           lang_opts=["max_small_integer", "allowed_numbers"], ignore_opt=True,
                           limits=["max_small_integer"], invalid={"max_small_integer": [0, -2]}),
-    "print-statements": dict(cmd="print-statements", sections=["print-statements"], prefix="improper-logging", files={"src/m.py": MISC}, base={}, sweeps={}, cli={}, langs=[],
+    "print-statements": dict(cmd="print-statements", sections=["print-statements", "improper-logging"], prefix="improper-logging", files={"src/m.py": MISC}, base={}, sweeps={}, cli={}, langs=[],
                              limits=[], invalid={}),
     "file-header": dict(cmd="file-header", sections=["file-header"], prefix="file-header", files={"src/m.py": MISC}, base={}, sweeps={}, cli={}, langs=[], limits=[], invalid={}),
     "method-property": dict(cmd="method-property", sections=["method-property"], prefix="method-property", files={"src/mp.py": METHODPROP}, base={},
